@@ -670,6 +670,82 @@ def dispatch_mutation_harness(ex):
         pop_exception_handler()
 
 
+def mode_setter_harness(ex):
+    """the compiled comparison-mode setter / getter pair on an ARBITRARY 32-bit flag word and an arbitrary integer mode (interpreted
+    from the C source): a valid mode leaves exactly that mode readable, writes the same mode bits whatever the word held before, and
+    touches no other flag; an invalid mode raises ValueError and changes nothing"""
+    from vt.csym import NULL
+    mode = ex.int("mode")
+    f0 = ex.bv("flags", 32)
+    if not ex.sym:
+        # the real build: the flag word is put into a CTrait through its state tuple (__getstate__ / __setstate__ carry it)
+        from traits.ctrait import CTrait
+
+        def real(flags, m):
+            ct = CTrait(0)
+            st_ = list(ct.__getstate__())
+            st_[8], st_[14] = flags & 0xFFFFFFFF, {}
+            ct.__setstate__(tuple(st_))
+            try:
+                ct.comparison_mode = m
+                outcome = "ok"
+            except (ValueError, OverflowError):
+                outcome = "ValueError"
+            return ct.__getstate__()[8], outcome, ct
+        touched, pattern = 0, {}
+        for m in (0, 1, 2):
+            z, _o, _c = real(0, m)
+            o_, _o, _c = real(0xFFFFFFFF, m)
+            touched |= z | (~o_ & 0xFFFFFFFF)
+            pattern[m] = z
+        f1, outcome, ct = real(f0, mode)
+        if 0 <= mode <= 2:
+            ex.check(outcome == "ok", "a valid comparison mode is accepted")
+            ex.check(int(ct.comparison_mode) == mode, "a valid comparison mode is the mode readable afterwards")
+            ex.check(f1 & ~touched == f0 & ~touched, "setting the comparison mode touches no other flag")
+            ex.check(f1 & touched == pattern[mode] & touched, "the mode bits written are the mode's own pattern, whatever the word held before")
+        else:
+            ex.check(outcome != "ok", "an invalid comparison mode raises ValueError")
+            ex.check(f1 == f0, "an invalid comparison mode is refused and changes nothing")
+        return {"outcome": outcome}
+    it = cenv.new_interp()
+
+    def run(flags, m):
+        t = cenv.new_trait(handler=NULL)
+        t.flags = flags
+        rc = it.call("_set_trait_comparison_mode", [t, m, NULL])
+        err = it.st.err
+        it.st.err = None
+        return t, rc, err
+    # which bits the setter ever writes, measured on the all-zeros and the all-ones word (concrete runs of the same interpreted code)
+    touched = 0
+    pattern = {}
+    for m in (0, 1, 2):
+        t0, _r, _e = run(0, m)
+        t1, _r, _e = run(0xFFFFFFFF, m)
+        touched |= int(t0.flags) | (~int(t1.flags) & 0xFFFFFFFF)
+        pattern[m] = int(t0.flags)
+    t, rc, err = run(f0, mode)
+    f1 = t.flags
+    f1 = f1 if z3.is_expr(f1) else z3.BitVecVal(int(f1), 32)
+    valid = ex.decide(z3.And(mode.e >= 0, mode.e <= 2))
+    if valid:
+        ex.check(rc == 0 and err is None, "a valid comparison mode is accepted")
+        got = it.call("_get_trait_comparison_mode_int", [t, NULL])
+        ex.check(symx._z(got) == mode.e if symx.is_proxy(got) else z3.IntVal(int(got)) == mode.e, "a valid comparison mode is the mode readable afterwards")
+        keep = z3.BitVecVal(~touched & 0xFFFFFFFF, 32)
+        ex.check((f1 & keep) == (f0 & keep), "setting the comparison mode touches no other flag")
+        for m in (0, 1, 2):
+            if ex.decide(mode.e == m):
+                ex.check((f1 & z3.BitVecVal(touched, 32)) == z3.BitVecVal(pattern[m] & touched, 32),
+                         "the mode bits written are the mode's own pattern, whatever the word held before")
+                break
+        return {"outcome": "ok"}
+    ex.check(rc == -1 and err is not None and err[0].__name__ in ("ValueError", "OverflowError"), "an invalid comparison mode raises ValueError")
+    ex.check(f1 == f0, "an invalid comparison mode is refused and changes nothing")
+    return {"outcome": "ValueError"}
+
+
 def obligations(tier, build):
     cenv.load_program(build)
     obs = []
@@ -743,6 +819,9 @@ def obligations(tier, build):
                                           "exception handler": "observe's default (logging)"},
                                   leverage="choice feasibility only", max_paths=2000))
     KD = 3 if tier == "quick" else 4
+    obs.append(Obligation("comparison-mode-setter", mode_setter_harness, stubs=STUBS, kind="csym",
+                          bounds={"flag word": "any 32-bit word (bit-vector)", "mode": "unbounded Int (|mode| >= 2**63: OverflowError from PyLong_AsLong)"},
+                          leverage="the flag word (BV32) and the mode (Int) through the interpreted setter / getter", max_paths=200))
     obs.append(Obligation("dispatch-mutation", dispatch_mutation_harness, stubs=[],
                           bounds={"routes": ["named on_trait_change", "name-less on_trait_change", "observe"],
                                   "the first handler": ["unregisters itself", "unregisters a later handler", "registers another handler"]},
